@@ -124,7 +124,7 @@ PROPS = {
         "level": "proof",
         "lean_modules": ["CrabProofs.Props.C07", "CrabProofs.Props.C07Fix"],
         "components": [{"harness": "h_wto", "quick": 24000, "thorough": 600000, "shards": 8,
-                        "nontrivial": lambda l: bool(__import__("re").search(r"=> \(w[^)]*\(", l))}],
+                        "nontrivial": lambda l: (" (w " in l) and ("(" in l.split(" (w ", 1)[1].split(" (nest", 1)[0])}],
         "rule": "random directed graphs (1-16 nodes quick, up to 40 thorough; self loops, nested and irreducible cycles, unreachable parts, every node as entry, permuted successor orders) built as real crab CFGs; the implementation's ordering and nesting table are checked by the proved checker checkWto and compared with the model of the iterative Bourdoncle algorithm; non-trivial = the ordering has a cycle",
         "assumptions": ["successor order = the order in which the cfg enumerates next_blocks (printed by the harness)", "call-graph instance of wto<> not driven"],
         "trusted_base": COMMON_TB + ["model: CrabModel/Graph/Wto.lean, checker: CrabModel/Graph/WtoCheck.lean"],
